@@ -311,7 +311,7 @@ def gen_match_cases(rnd, tier):
     txts = [''.join(p) for n in range(lt + 1) for p in itertools.product(ta, repeat=n)]
     lines = ['pm_match pat=%s text=%s' % (hx(p), hx(t)) for p in pats for t in txts]
     cases = []
-    chunk = 4000
+    chunk = 120
     for i in range(0, len(lines), chunk):
         cases.append({'lines': lines[i:i + chunk], 'tags': {'family': 'match-exhaustive'}})
     # random permission-like pairs (long strings, real permission alphabet)
